@@ -33,6 +33,8 @@ type Interp struct {
 	noIfConv    bool
 	bgCtx       *NativeObj
 	pkgBuilt    map[*ssa.Package]bool
+	jsonSeq     int
+	jsonVals    map[string]Iface
 	mainPkg     *ssa.Package
 	replaceAlways map[string]bool
 	syncMaps    map[*Value]*Map
